@@ -88,6 +88,7 @@ func main() {
 		}
 	}
 	extra(out)
+	extra2(out)
 }
 
 // extra adds k10..k17 (leaves of the CA reusing k8's key, common names of 1..8 extra characters so that the
@@ -156,4 +157,57 @@ func write(out, name string, key *rsa.PrivateKey, der []byte) {
 	kb, _ := x509.MarshalPKCS8PrivateKey(key)
 	os.WriteFile(fmt.Sprintf("%s/%s.key.pem", out, name), pem.EncodeToMemory(&pem.Block{Type: "PRIVATE KEY", Bytes: kb}), 0o644)
 	os.WriteFile(fmt.Sprintf("%s/%s.cert.pem", out, name), pem.EncodeToMemory(&pem.Block{Type: "CERTIFICATE", Bytes: der}), 0o644)
+}
+
+
+// extra2 adds k19 (self-signed) and k20 (leaf of the CA over k9's key) whose validity windows begin and end
+// inside the simulated time span, so that a verifier which compares the signingTime attribute with the
+// signer certificate's validity has edges to be strict about.
+func extra2(out string) {
+	if _, err := os.Stat(out + "/k19.key.pem"); err == nil {
+		return
+	}
+	rd := func(n string) []byte {
+		b, err := os.ReadFile(out + "/" + n)
+		if err != nil {
+			panic(err)
+		}
+		blk, _ := pem.Decode(b)
+		return blk.Bytes
+	}
+	key, _ := rsa.GenerateKey(rand.Reader, 2048)
+	t := &x509.Certificate{
+		SerialNumber: big.NewInt(0x4001), Subject: pkix.Name{CommonName: "sim short validity", Organization: []string{"verif sim"}},
+		NotBefore: time.Date(2030, 6, 15, 12, 0, 0, 0, time.UTC), NotAfter: time.Date(2031, 6, 15, 12, 0, 0, 0, time.UTC),
+		KeyUsage: x509.KeyUsageDigitalSignature, ExtKeyUsage: []x509.ExtKeyUsage{x509.ExtKeyUsageCodeSigning},
+	}
+	der, err := x509.CreateCertificate(rand.Reader, t, t, &key.PublicKey, key)
+	if err != nil {
+		panic(err)
+	}
+	write(out, "k19", key, der)
+	caKeyAny, err := x509.ParsePKCS8PrivateKey(rd("ca.key.pem"))
+	if err != nil {
+		panic(err)
+	}
+	caCert, err := x509.ParseCertificate(rd("ca.cert.pem"))
+	if err != nil {
+		panic(err)
+	}
+	k9Any, err := x509.ParsePKCS8PrivateKey(rd("k9.key.pem"))
+	if err != nil {
+		panic(err)
+	}
+	k9 := k9Any.(*rsa.PrivateKey)
+	t2 := &x509.Certificate{
+		SerialNumber: big.NewInt(0x4002), Subject: pkix.Name{CommonName: "sim leaf short validity", Organization: []string{"verif sim"}},
+		NotBefore: time.Date(2020, 1, 1, 0, 0, 0, 0, time.UTC), NotAfter: time.Date(2020, 12, 31, 23, 59, 59, 0, time.UTC),
+		KeyUsage: x509.KeyUsageDigitalSignature, ExtKeyUsage: []x509.ExtKeyUsage{x509.ExtKeyUsageCodeSigning},
+	}
+	der2, err := x509.CreateCertificate(rand.Reader, t2, caCert, &k9.PublicKey, caKeyAny.(*rsa.PrivateKey))
+	if err != nil {
+		panic(err)
+	}
+	write(out, "k20", k9, der2)
+	fmt.Println(19, 20, "short validity", len(der), len(der2))
 }
